@@ -214,7 +214,11 @@ def compare(ctx, rule, instance, where, code, ref_poly, ref_dims=None, facts=Non
     if ref_dims is not None and tuple(code.dims) != tuple(ref_dims):
         ctx.violation(rule, instance, where, 'result is indexed by axes %s, expected %s' % (code.dims, tuple(ref_dims)), 'axes')
         return False
-    diff = code.poly - ref_poly
+    try:
+        diff = code.poly - ref_poly
+    except RecursionError:
+        ctx.undecided(rule, instance, where, 'normal form too deep to compare')
+        return False
     if code.mask is not None:
         ctx.undecided(rule, instance, where, 'value carries a pending mask')
         return False
@@ -228,7 +232,7 @@ def compare(ctx, rule, instance, where, code, ref_poly, ref_dims=None, facts=Non
     syms, fnames = alg.leaf_syms(rem)
     allowed_s = set(vocab or ()) | {'INF', 'PI'}
     allowed_f = BASE_FNS | set(fns or ())
-    foreign = {s for s in syms if s not in allowed_s and not s.startswith('unit:')} | {f for f in fnames if f not in allowed_f}
+    foreign = {s for s in syms if s not in allowed_s and not s.startswith('unit:') and not s.startswith('idx:')} | {f for f in fnames if f not in allowed_f}
     if foreign:
         ctx.undecided(rule, instance, where, 'normal forms differ but the remainder contains unrecognised atoms %s' % sorted(foreign))
     else:
